@@ -869,6 +869,18 @@ def r12l(ctx, reg):
             for st in walk_no_nested(node):
                 if isinstance(st, (ast.Assign, ast.AugAssign)) and st is not gets[0] and any(isinstance(t, ast.Name) and t.id == got for t in (st.targets if isinstance(st, ast.Assign) else [st.target])):
                     bad.append((st, f"`{norm(st, 60)}` replaces the value read"))
+            # an attribute that is present with the value "" is not absent: the raw value is tested with `is None`, never for truth
+            for st in walk_no_nested(node):
+                if isinstance(st, (ast.If, ast.IfExp, ast.While)):
+                    work = [st.test]
+                    while work:
+                        e = work.pop()
+                        if isinstance(e, ast.BoolOp):
+                            work += e.values
+                        elif isinstance(e, ast.UnaryOp) and isinstance(e.op, ast.Not):
+                            work.append(e.operand)
+                        elif isinstance(e, ast.Name) and e.id == got:
+                            bad.append((st, f"`{norm(st.test, 40)}` tests the raw value for truth (an empty string is a value)"))
         label = f"{f.ident}{'.' + node.name if node is not f.node else ''}"
         ctx.instance("R12l", f"{f.file}:{label}", f"{role}: value carried verbatim", ok=not bad, nontrivial=True, line=node.lineno)
         for n_, why in bad[:2]:
@@ -881,6 +893,38 @@ ACCESSOR_EXCEPTIONS = {
     ("Table.print_ranges", "getter"): "documented list form: the stored blank-separated string is split into its items",
     ("NamedRange.name", "setter"): "documented normalisation: the name check trims the name before validating and storing it",
 }
+
+
+def r12n(ctx, reg):
+    """Names are spelled the way ODF spells them.
+
+    `_decode_qname` and its three callers turn "prefix:name" into the lxml form; the class registry, every PropDef, every get/set of an
+    attribute and every element that is built go through them.  ODF names are case-sensitive (`anim:transitionFilter`, `smil:fadeColor`)
+    and carry no white space; a lower(), strip() or replace() in there makes the registry key and the attribute names disagree with the
+    nodes that are parsed — one class stops coming back as itself, one attribute is written under another name.  Rule: the helpers apply
+    no string method to the name but the split on ':' / '}' that separates prefix and local name.
+    """
+    from .c14 import _lossy_call
+    repo = ctx.repo
+    ctx.rule("R12n", "the qualified-name helpers keep the spelling of names (only the split into prefix and local name)", floor=4)
+    m = repo.module("element")
+    for fname in ("_decode_qname", "_get_lxml_tag", "_get_lxml_tag_or_name", "_get_prefixed_name", "_uri_to_prefix"):
+        f = next((g for g in m.all_funcs if g.name == fname and g.cls is None), None)
+        if f is None:
+            continue
+        bad = []
+        for x in walk_no_nested(f.node):
+            if isinstance(x, ast.Call) and _lossy_call(x):
+                sep = x.args[0].value if x.args and isinstance(x.args[0], ast.Constant) else None
+                if isinstance(x.func, ast.Attribute) and x.func.attr in ("split", "rsplit", "partition", "rpartition") and sep in (":", "}"):
+                    continue
+                bad.append(x)
+        ctx.instance("R12n", f"{f.file}:{f.ident}", "name kept as spelled", ok=not bad, nontrivial=True, line=f.node.lineno)
+        for x in bad[:1]:
+            ctx.report("R12n", f, x, f"{fname}: {norm(x, 50)}",
+                       f"{fname} rewrites the qualified name with `{norm(x, 40)}`: the registry key of a tag or the lxml name of an attribute no longer equals the name in the parsed "
+                       f"document when the rewrite changes it (ODF has mixed-case names: anim:transitionFilter, smil:fadeColor) — the class is not found again, the attribute is "
+                       f"written under another name")
 
 
 def r12m(ctx, reg):
@@ -931,6 +975,7 @@ def run(ctx):
     r12k(ctx, reg)
     r12l(ctx, reg)
     r12m(ctx, reg)
+    r12n(ctx, reg)
     # `clone` is one of the access paths of the property: a clone must be a detached copy of its own (rules shared with C10)
     from .c10 import r10c, r10g
     r10c(ctx)
@@ -971,6 +1016,11 @@ SEEDS = [
          '        self.set_attribute("table:protection-key", key)', '        self.set_attribute("table:protection-key", key.strip())', "R12m"),
     Seed("Table.protection_key getter lower-cases", "fault", "src/odfdo/table.py",
          '        return self.get_attribute_string("table:protection-key")', '        key = self.get_attribute_string("table:protection-key")\n        return key.lower() if key else key', "R12m"),
+    Seed("get_attribute treats an empty value as absent", "fault", "src/odfdo/element.py",
+         "        value = element.get(lxml_tag)\n        if value is None:\n            return None\n        elif value in (\"true\", \"false\"):",
+         "        value = element.get(lxml_tag)\n        if not value:\n            return None\n        if value in (\"true\", \"false\"):", "R12l"),
+    Seed("_decode_qname lower-cases the name", "fault", "src/odfdo/element.py", '    if ":" in qname:\n        prefix, name = qname.split(":")', '    qname = qname.strip().lower()\n    if ":" in qname:\n        prefix, name = qname.split(":")', "R12n"),
+    Seed("_decode_qname splits on the first colon only", "neutral", "src/odfdo/element.py", '        prefix, name = qname.split(":")', '        prefix, name = qname.split(":", 1)'),
     Seed("PropDef setter names its sink arguments", "neutral", "src/odfdo/element.py", "            self.__element.set(name, str(value))", "            elem = self.__element\n            text = str(value)\n            elem.set(name, text)"),
     Seed("unregister Section", "fault", "src/odfdo/section.py", "register_element_class(Section)\n", "", "R12a"),
     Seed("Span registered for text:a too (shadowing Link)", "fault", "src/odfdo/paragraph.py",
